@@ -70,32 +70,34 @@ Ltac unf := unfold mint, burn, move in *; unfold credit, debit in *;
 
 Ltac fin := rewrite ?Nat.eqb_refl, ?andb_false_r, ?andb_true_r; cbn [andb]; first [assumption | lia].
 
-Lemma take_tokens_backed c cs u tok amt dst cs' ori b :
-  take_tokens cfg c cs (User u) tok amt dst = Some (cs', ori) -> (dst < n)%nat ->
+Definition payer (h : holder) : Prop := match h with User _ | Agent => True | _ => False end.
+
+Lemma take_tokens_backed c cs h tok amt dst cs' ori b :
+  payer h -> take_tokens cfg c cs h tok amt dst = Some (cs', ori) -> (dst < n)%nat ->
   (EB cs -> EB cs') /\ (SA b cs -> SA b cs').
 Proof.
-  unfold take_tokens. destruct (amt =? 0); [intro H; inv H; auto|].
+  intro Hh. unfold take_tokens. destruct (amt =? 0); [intro H; inv H; auto|].
   destruct (bound cfg c tok dst) as [[o k]|].
-  - destruct ((amt * k <=? bal cs tok (User u)) && (amt * k <=? bind_amt cs tok dst) && (amt * k <=? supply cs tok)) eqn:Eg; [|discriminate].
+  - destruct ((amt * k <=? bal cs tok h) && (amt * k <=? bind_amt cs tok dst) && (amt * k <=? supply cs tok)) eqn:Eg; [|discriminate].
     apply andb_true_iff in Eg as [Eg G3]. apply andb_true_iff in Eg as [G1 G2]. apply N.leb_le in G1, G2, G3.
-    intros H Hd; inv H. split; intros HI t; specialize (HI t); unf.
-    + fin.
-    + destruct (Nat.eqb_spec tok t) as [<-|Hne].
-      * pose proof (sum_over_upd n (bind_amt cs) tok dst (bind_amt cs tok dst - amt * k) Hd). fin.
-      * rewrite sum_over_upd_other by assumption. fin.
-  - destruct (amt <=? bal cs tok (User u)) eqn:G1; [|discriminate]. apply N.leb_le in G1.
-    intros H Hd; inv H. split; intros HI t; specialize (HI t); unf.
-    + destruct (Nat.eqb_spec tok t) as [<-|Hne]; cbn [andb].
-      * pose proof (sum_over_upd n (out_tokens cs) tok dst (out_tokens cs tok dst + amt) Hd). fin.
-      * rewrite sum_over_upd_other by assumption. fin.
-    + fin.
+    intros H Hd; inv H. split; intros HI t; specialize (HI t).
+    + destruct h as [u0| | | | |]; try contradiction; unf; fin.
+    + destruct h as [u0| | | | |]; try contradiction; unf; (destruct (Nat.eqb_spec tok t) as [<-|Hne];
+        [pose proof (sum_over_upd n (bind_amt cs) tok dst (bind_amt cs tok dst - amt * k) Hd); fin
+        |rewrite sum_over_upd_other by assumption; fin]).
+  - destruct (amt <=? bal cs tok h) eqn:G1; [|discriminate]. apply N.leb_le in G1.
+    intros H Hd; inv H. split; intros HI t; specialize (HI t).
+    + destruct h as [u0| | | | |]; try contradiction; unf; (destruct (Nat.eqb_spec tok t) as [<-|Hne]; cbn [andb];
+        [pose proof (sum_over_upd n (out_tokens cs) tok dst (out_tokens cs tok dst + amt) Hd); fin
+        |rewrite sum_over_upd_other by assumption; fin]).
+    + destruct h as [u0| | | | |]; try contradiction; unf; fin.
 Qed.
 
-Lemma take_fee_backed cs u ftok fee cs' b :
-  take_fee cs (User u) ftok fee = Some cs' -> (EB cs -> EB cs') /\ (SA b cs -> SA b cs').
+Lemma take_fee_backed cs h ftok fee cs' b :
+  payer h -> take_fee cs h ftok fee = Some cs' -> (EB cs -> EB cs') /\ (SA b cs -> SA b cs').
 Proof.
-  unfold take_fee. destruct (fee <=? bal cs ftok (User u)); [|discriminate]. intro H; inv H.
-  split; intros HI t; specialize (HI t); unf; fin.
+  intro Hh. unfold take_fee. destruct (fee <=? bal cs ftok h); [|discriminate]. intro H; inv H.
+  split; intros HI t; specialize (HI t); destruct h as [u0| | | | |]; try contradiction; unf; fin.
 Qed.
 
 Lemma give_tokens_backed cs p cs' d b :
@@ -122,18 +124,31 @@ Proof.
       * rewrite sum_over_upd_other by assumption. fin.
 Qed.
 
-Lemma run_calldata_backed cs cd code cs' b :
-  run_calldata cs cd = (code, cs') -> (EB cs -> EB cs') /\ (SA b cs -> SA b cs').
-Proof. destruct cd; cbn; intro H; inv H; split; intros HI t; exact (HI t). Qed.
-
-Lemma recv_chain_backed cs p code cs' d b :
-  recv_chain cfg cs p = (code, cs', d) -> (p_src p < n)%nat -> (EB cs -> EB cs') /\ (SA b cs -> SA b cs').
+Lemma transfer_chain_backed c cs h tok amt dst rcv cd cb ftok fee cs' p b :
+  payer h -> transfer_chain cfg c cs h tok amt dst rcv cd cb ftok fee = Some (cs', p) -> (EB cs -> EB cs') /\ (SA b cs -> SA b cs').
 Proof.
-  unfold recv_chain. destruct (give_tokens cfg cs p) as [[cs1 d1]|] eqn:E.
-  - destruct (run_calldata cs1 (p_cd p)) as [code1 cs2] eqn:E2. intros H Hs.
-    destruct (code1 =? 0); inv H; [|auto].
-    destruct (give_tokens_backed _ _ _ _ b E Hs) as [A1 A2]. destruct (run_calldata_backed _ _ _ _ b E2) as [B1 B2]. auto.
-  - intros H _; inv H. auto.
+  intro Hh. unfold transfer_chain. destruct (dst_ok cfg c dst) eqn:E1; [|discriminate].
+  apply dst_ok_true in E1 as (_ & _ & E1). unfold transfer_evm.
+  destruct ((amt =? 0) && cd_is_none cd); [discriminate|].
+  destruct (take_tokens cfg c cs h tok amt dst) as [[cs1 ori]|] eqn:E2; [|discriminate].
+  destruct (take_fee cs1 h ftok fee) as [cs2|] eqn:E3; [|discriminate].
+  intro H; inv H.
+  destruct (take_tokens_backed _ _ _ _ _ _ _ _ b Hh E2 E1) as [A1 A2]. destruct (take_fee_backed _ _ _ _ _ b Hh E3) as [B1 B2].
+  split; intro HI; [specialize (B1 (A1 HI))|specialize (B2 (A2 HI))]; intros t; [specialize (B1 t)|specialize (B2 t)]; unf; assumption.
+Qed.
+
+Lemma same_core_backed cs' cs1 b : same_core cs' cs1 -> (EB cs1 -> EB cs') /\ (SA b cs1 -> SA b cs').
+Proof.
+  intros (S1 & S2 & _ & S4 & S5 & _). split; intros HI t; specialize (HI t); unfold EB, SA in *; rewrite ?S1, ?S2, ?S4, ?S5; exact HI.
+Qed.
+
+Lemma recv_chain_backed cs p code cs' d onw b :
+  recv_chain cfg cs p = (code, cs', d, onw) -> (p_src p < n)%nat -> (EB cs -> EB cs') /\ (SA b cs -> SA b cs').
+Proof.
+  intros H Hs. apply recv_chain_cases in H as [(_ & -> & _)|(_ & cs1 & G & [(_ & S)|(q & T & a2 & feer & ref & rcv2 & dst2 & _ & Ht)])]; [auto| |].
+  - destruct (give_tokens_backed _ _ _ _ b G Hs) as [A1 A2]. destruct (same_core_backed _ _ b S) as [B1 B2]. auto.
+  - destruct (give_tokens_backed _ _ _ _ b G Hs) as [A1 A2].
+    destruct (transfer_chain_backed (p_dst p) cs1 Agent T a2 dst2 rcv2 CdNone (CbAgent ref) T feer cs' q b I Ht) as [B1 B2]. auto.
 Qed.
 
 Lemma give_back_backed cs p cs' r b :
@@ -142,28 +157,46 @@ Proof.
   unfold give_back. destruct (p_code p =? 0); [intro H; inv H; auto|].
   destruct (p_amount p =? 0); [discriminate|]. destruct (p_ori p) as [t0|].
   - destruct (bound cfg (p_src p) (p_token p) (p_dst p)) as [[o k]|]; [|discriminate].
-    intros H Hd; inv H. split; intros HI t; specialize (HI t); unf.
-    + fin.
-    + destruct (Nat.eqb_spec (p_token p) t) as [<-|Hne].
+    intros H Hd; inv H. split; intros HI t; specialize (HI t).
+    + cbn [set_bind bal out_tokens]. pose proof (mint_lower cs (p_token p) (p_sender p) (p_amount p * k) t Endpoint) as L.
+      change (out_tokens (mint cs (p_token p) (p_sender p) (p_amount p * k)) t) with (out_tokens cs t). lia.
+    + unf. destruct (Nat.eqb_spec (p_token p) t) as [<-|Hne].
       * pose proof (sum_over_upd n (bind_amt cs) (p_token p) (p_dst p) (bind_amt cs (p_token p) (p_dst p) + p_amount p * k) Hd). fin.
       * rewrite sum_over_upd_other by assumption. fin.
   - destruct ((p_amount p <=? out_tokens cs (p_token p) (p_dst p)) && (p_amount p <=? bal cs (p_token p) Endpoint)) eqn:Eg; [|discriminate].
     apply andb_true_iff in Eg as [G1 G2]. apply N.leb_le in G1, G2.
-    intros H Hd; inv H. split; intros HI t; specialize (HI t); unf.
-    + rewrite andb_false_r. destruct (Nat.eqb_spec (p_token p) t) as [<-|Hne]; cbn [andb].
-      * pose proof (sum_over_upd n (out_tokens cs) (p_token p) (p_dst p) (out_tokens cs (p_token p) (p_dst p) - p_amount p) Hd). fin.
-      * rewrite sum_over_upd_other by assumption. fin.
-    + fin.
+    intros H Hd; inv H. split; intros HI t; specialize (HI t).
+    + cbn [set_out bal out_tokens]. pose proof (move_lower cs (p_token p) Endpoint (p_sender p) (p_amount p) t Endpoint) as L.
+      destruct (Nat.eqb_spec (p_token p) t) as [<-|Hne]; cbn [andb holder_eqb] in L.
+      * pose proof (sum_over_upd n (out_tokens cs) (p_token p) (p_dst p) (out_tokens cs (p_token p) (p_dst p) - p_amount p) Hd). lia.
+      * rewrite sum_over_upd_other by assumption. lia.
+    + unf. fin.
+Qed.
+
+Lemma move_payer_backed cs t from to a b :
+  payer from -> (EB cs -> EB (move cs t from to a)) /\ (SA b cs -> SA b (move cs t from to a)).
+Proof.
+  intro Hp. split; intros HI t'; specialize (HI t').
+  - pose proof (move_lower cs t from to a t' Endpoint) as L.
+    assert (holder_eqb from Endpoint = false) as E by (destruct from; try contradiction; reflexivity).
+    rewrite E, andb_false_r in L. change (out_tokens (move cs t from to a) t') with (out_tokens cs t'). lia.
+  - exact HI.
 Qed.
 
 Lemma ack_chain_backed cs p cs' r b :
-  ack_chain cfg cs p = Some (cs', r) -> (p_dst p < n)%nat -> (EB cs -> EB cs') /\ (SA b cs -> SA b cs').
+  ack_chain cfg cs p = Some (cs', r) -> (p_dst p < n)%nat -> payer (p_sender p) -> (EB cs -> EB cs') /\ (SA b cs -> SA b cs').
 Proof.
-  unfold ack_chain. destruct (p_cb p); [|discriminate].
+  unfold ack_chain. intros H Hd Hp.
   destruct (fees cs (p_dst p) (p_seq p)) as [ft f].
-  match goal with |- context [if ?c then _ else _] => destruct c end; [|discriminate].
-  intros H Hd. apply (give_back_backed _ _ _ _ b) in H as [A1 A2]; [|exact Hd].
-  split; intro HI; [apply A1|apply A2]; intros t; specialize (HI t); unf; fin.
+  assert (F : forall csx, csx = move (set_ackst cs (upd_cs (ack_status cs) (p_dst p) (p_seq p) (if p_code p =? 0 then 1 else 2))) ft PacketC Relayer f ->
+              (EB cs -> EB csx) /\ (SA b cs -> SA b csx)).
+  { intros csx ->. split; intros HI t; specialize (HI t); unf; fin. }
+  destruct (p_cb p) as [| |ref]; try discriminate;
+    (match type of H with (if ?c then _ else _) = _ => destruct c end; [|discriminate]);
+    (match type of H with match ?g with Some _ => _ | None => _ end = _ => destruct g as [[cs2 r2]|] eqn:Eg end; [|discriminate]);
+    injection H as <- <-; destruct (F _ eq_refl) as [F1 F2]; destruct (give_back_backed _ _ _ _ b Eg Hd) as [G1 G2].
+  - auto.
+  - destruct (r2 =? 0); [auto|]. destruct (move_payer_backed cs2 (p_token p) (p_sender p) (User ref) r2 b Hp) as [M1 M2]. auto.
 Qed.
 
 Lemma addfee_chain_backed cs u dst sq amt cs' b :
@@ -172,20 +205,6 @@ Proof.
   unfold addfee_chain. destruct (fees cs dst sq) as [ft f].
   match goal with |- context [if ?c then _ else _] => destruct c end; [|discriminate]. intro H; inv H.
   split; intros HI t; specialize (HI t); unf; fin.
-Qed.
-
-Lemma transfer_chain_backed c cs u tok amt dst rcv cd cb ftok fee cs' p b :
-  transfer_chain cfg c cs u tok amt dst rcv cd cb ftok fee = Some (cs', p) -> (EB cs -> EB cs') /\ (SA b cs -> SA b cs').
-Proof.
-  unfold transfer_chain.
-  destruct (Nat.eqb c dst || negb (Nat.ltb dst n) || negb (Nat.ltb c n)) eqn:E1; [discriminate|].
-  apply orb_false_iff in E1 as [E1 _]. apply orb_false_iff in E1 as [_ E1]. apply negb_false_iff, Nat.ltb_lt in E1.
-  destruct ((amt =? 0) && cd_is_none cd); [discriminate|].
-  destruct (take_tokens cfg c cs (User u) tok amt dst) as [[cs1 ori]|] eqn:E2; [|discriminate].
-  destruct (take_fee cs1 (User u) ftok fee) as [cs2|] eqn:E3; [|discriminate].
-  intro H; inv H.
-  destruct (take_tokens_backed _ _ _ _ _ _ _ _ b E2 E1) as [A1 A2]. destruct (take_fee_backed _ _ _ _ _ b E3) as [B1 B2].
-  split; intro HI; [specialize (B1 (A1 HI))|specialize (B2 (A2 HI))]; intros t; [specialize (B1 t)|specialize (B2 t)]; unf; assumption.
 Qed.
 
 (** * Global statements *)
@@ -206,22 +225,22 @@ Proof.
   - intros c' t. rewrite chains_set_chain. destruct (Nat.eqb_spec c c') as [<-|]; [|apply H2]. apply A2. intro t'. apply H2.
 Qed.
 
-Theorem step_backed base s o s' : wf cfg s -> Backed base s -> step cfg s o = Ok s' -> Backed base s'.
+Theorem step_backed base s o s' : wf cfg s -> Ghost cfg s -> Backed base s -> step cfg s o = Ok s' -> Backed base s'.
 Proof.
-  intros [_ Hall] HB H. unfold step, step_gen in H.
+  intros [_ Hall] HG HB H. unfold step, step_gen in H.
   destruct o as [c u tok amt dst rcv cd cb ftok fee|src dst sq|src dst sq|c u dst sq amt].
-  - destruct (transfer_chain cfg c (chains s c) u tok amt dst rcv cd cb ftok fee) as [[cs p]|] eqn:E; [|discriminate].
-    inv H. apply backed_chain; [exact HB|]. eapply transfer_chain_backed; eauto.
+  - destruct (transfer_chain cfg c (chains s c) (User u) tok amt dst rcv cd (if cb then CbBroken else CbNone) ftok fee) as [[cs p]|] eqn:E; [|discriminate].
+    inv H. apply backed_chain; [exact HB|]. eapply transfer_chain_backed; eauto. exact I.
   - destruct (lookup src dst sq (packets s)) as [p|] eqn:El; [|discriminate].
     destruct (is_sent p); [|discriminate].
-    destruct (recv_chain cfg (chains s dst) p) as [[code cs] d] eqn:Er. inv H.
+    destruct (recv_chain cfg (chains s dst) p) as [[[code cs] d] onw] eqn:Er. inv H.
     destruct (lookup_in _ _ _ _ _ El) as [Hin _]. destruct (Hall p Hin) as [(_ & _ & _ & _ & _ & _ & _ & Hs & _) _].
     apply backed_chain; [exact HB|]. eapply recv_chain_backed; eauto.
   - destruct (lookup src dst sq (packets s)) as [p|] eqn:El; [|discriminate].
     destruct (is_received p); [|discriminate].
     destruct (ack_chain cfg (chains s src) p) as [[cs r]|] eqn:Er; [|discriminate]. inv H.
     destruct (lookup_in _ _ _ _ _ El) as [Hin _]. destruct (Hall p Hin) as [(_ & _ & _ & _ & _ & _ & _ & _ & Hd) _].
-    apply backed_chain; [exact HB|]. eapply ack_chain_backed; eauto.
+    apply backed_chain; [exact HB|]. eapply ack_chain_backed; eauto. exact (proj1 (HG p Hin)).
   - destruct (addfee_chain (chains s c) u dst sq amt) as [cs|] eqn:E; [|discriminate]. inv H.
     apply backed_chain; [exact HB|]. eapply addfee_chain_backed; eauto.
 Qed.
@@ -232,7 +251,7 @@ Theorem run_backed base h : forall s, Good cfg s -> Backed base s -> Backed base
 Proof.
   unfold run, run_gen. induction h as [|o h IH]; intros s HG HB; cbn; [exact HB|].
   unfold apply_gen at 2. destruct (step_gen recv_chain cfg s o) as [s'| |] eqn:E; try (apply IH; assumption).
-  apply IH; [eapply step_good; eauto|]. eapply step_backed; eauto. exact (proj1 (proj1 HG)).
+  apply IH; [eapply step_good; eauto|]. eapply step_backed; eauto; [exact (proj1 (proj1 HG))|exact (proj2 HG)].
 Qed.
 
 (** fresh system: nothing escrowed, nothing minted for bindings; the supply of that moment is the locally issued one *)
